@@ -34,6 +34,12 @@ CLAIMED.update({
 CLAIMED.update({
  "C12": ("The filter programs exactly as the real getClassicBPFFilter returns them (generated TCP-tuple program with symbolic tuple; static SYN-ACK, ICMP, drop-all programs) are run by the real x/net/bpf VM on a symbolic 110-byte frame with symbolic captured length and proved equivalent to the reference predicate taken from the property text; and for each protocol the filter its entry point installs is proved to accept every frame whose payload the real matcher turns into a hop.", "5 C12"),
 })
+CLAIMED.update({
+ "C10": ("The four real protocol entry points executed whole over model handles (seams at the socket constructors), real drivers and engines, with one symbolic fault per run (which call fails, which k) and optionally failing Close calls, for bounded preemptions: an injected failure always yields an error wrapping the injected cause and no result; without a fault a result whose reported endpoints are those on the wire; on every path each handle (source, sink, reserved listener, UDP and TCP sockets) is closed exactly once and never used afterwards, and no goroutine outlives the call; only dial failure and a SYN-ACK without SACK-permitted are classified NotSupportedError.", "5 C10"),
+})
+CLAIMED.update({
+ "C14": ("A vector-clock happens-before monitor inside the symbolic executor checks every memory access of the model goroutines while the real TracerouteParallel runs over each real parallel-capable driver with replies queued at arbitrary points, while runTracerouteMulti runs concurrent runs/probes, and during concurrent reverse-DNS lookups and allocator calls, over all schedules within the preemption bound: no two conflicting accesses are unordered.", "5 C14"),
+})
 NA = {
  "C13": "needs replies from the real Linux kernel stack in network namespaces; a solver sees only what is encoded, and encoding the kernel would verify my model of it (DESIGN.md 5 C13)",
 }
